@@ -326,13 +326,20 @@ class NodeUpdate(CoreSummaries, Contract):
             return o.state.ghost['delta'].t == self.held(I, o.state) - self.held(I, self.pre_state)
         return fn
 
+    def no_over_release_clause(self):
+        """On a failing emission the node may keep holds it will never give up (the failed element is never
+        checkpointed) but it must not have released more than it still accounts for."""
+        def fn(self_, I, o, fr):
+            return o.state.ghost['delta'].t >= self.held(I, o.state) - self.held(I, self.pre_state)
+        return fn
+
     def standard_clauses(self, passthrough=True):
         rp = {'held': self.held_text, 'data_fields': list(self.data_fields)}
         cl = [
             Clause('C05.balance', ['C05', 'C04'], fn=self.balance_clause(), when='return', kind='balance', replay=rp,
                    note='own ref-count effect == held(post) - held(pre)'),
-            Clause('C05.balance_on_raise', ['C05', 'C16'], fn=self.balance_clause(), when='raise:DownstreamError',
-                   kind='balance', replay=rp),
+            Clause('C16.no_over_release_on_downstream_failure', ['C05', 'C16'], fn=self.no_over_release_clause(),
+                   when='raise:DownstreamError', kind='no_over_release', replay=rp),
             Clause('C01.reentrancy', ['C01'], fn=self.reentrancy_clause(), when='return', kind='reentrancy', replay=rp,
                    note='state is final before every emission'),
         ]
